@@ -18,6 +18,7 @@ from . import common as C
 
 PID = "C06"
 META = {
+    "ready": True,
     "category": "proof",
     "technique": "Lean 4 theorems about the symbol-map / slot-recycler model (roll-back restores, recycler closure, scan-list coverage from a regenerated table) + differential histories real Engine vs specification",
     "level_text": "Proved for all inputs (SteelVerif/C06/Props.lean): the recycler's scan list (regenerated from closed.rs on every run) covers every op code that indexes the global vector; SymbolMap.get after add; roll_back after any sequence of definitions (incl. repeated names) restores map, values and shadow list when no recycled slot was reused; the recycler's fixed point never frees a slot mentioned by the value of any surviving slot (so freed slots are unreachable from live code). The refinement of whole evaluation histories (slots refine binding cells) is NOT proved; it is checked by running generated histories (define / redefine / set! / calls / compile-time and run-time failures, enough redefinitions to trigger slot recycling) on one real Engine against the executable specification S, and the real SymbolMap against the model on random unit-level operation sequences.",
